@@ -1,5 +1,6 @@
 import Proofs.GenEq.Det
 import VerifModel.Model.DetMetrics
+import VerifModel.Model.DetSingle
 /-
   C05 — Deterministic scores equal their published definitions.
   The definition theorems (`Gen = textbook`, 17 metrics) are in Proofs/GenEq/Det.lean and are
@@ -269,5 +270,42 @@ theorem C05_declared_perfect :
 /-- non-vacuity: concrete data on which the scores are defined -/
 example : nsec [1, 2, 4] [1, 3, 3] = fin (1 - 2 / (14 / 3)) ∧ alphaindex [1, 2, 4] [1, 2, 4] = fin 0 := by
   constructor <;> decide +kernel
+
+/-! ### conditional axes (-x obs, -x fcst): which cases a metric sees -/
+
+/-- `np.where(interval.within(x))` selection: the values of `v` at the positions whose companion
+value lies in the interval; a missing companion selects nothing. -/
+theorem C05_selectWithin (I : Interval) (by_ v : Vec) :
+    selectWithin I by_ v = ((List.zip by_ v).filter fun p => I.within p.1 = some true).map (·.2) := by
+  unfold selectWithin
+  induction List.zip by_ v with
+  | nil => rfl
+  | cons p ps ih =>
+    simp only [List.filterMap_cons, List.filter_cons]
+    by_cases h : I.within p.1 = some true <;> simp [h, ih]
+
+/-- `-m obs -x fcst` (FromField): the aggregate is taken over the OBSERVATIONS of the cases where
+observation and forecast are both present and the FORECAST lies in the interval. -/
+theorem C05_fromfield_obs_by_fcst (agg : Vec → XR) (I : Interval) (obs fcst o g : Vec)
+    (h : getCols [obs, fcst] = [o, g]) :
+    fromFieldSingle agg false true .fcst I obs fcst
+      = some (agg (((List.zip g o).filter fun p => I.within p.1 = some true).map (·.2))) := by
+  simp [fromFieldSingle, h, C05_selectWithin]
+
+/-- `-m fcst -x obs`: forecasts of the cases whose observation lies in the interval. -/
+theorem C05_fromfield_fcst_by_obs (agg : Vec → XR) (I : Interval) (obs fcst g o : Vec)
+    (h : getCols [fcst, obs] = [g, o]) :
+    fromFieldSingle agg false false .obs I obs fcst
+      = some (agg (((List.zip o g).filter fun p => I.within p.1 = some true).map (·.2))) := by
+  simp [fromFieldSingle, h, C05_selectWithin]
+
+/-- obs/fcst-based metrics under `-x obs`: the metric of the valid pairs whose observation lies in
+the interval (both members restricted by the same selection). -/
+theorem C05_obsfcst_by_obs (f : Vec → Vec → XR) (I : Interval) (obs fcst o g : Vec)
+    (h : getCols [obs, fcst] = [o, g]) :
+    obsFcstSingle f .obs I obs fcst
+      = computeFromObsFcst f (((List.zip o o).filter fun p => I.within p.1 = some true).map (·.2))
+          (((List.zip o g).filter fun p => I.within p.1 = some true).map (·.2)) := by
+  simp [obsFcstSingle, h, C05_selectWithin]
 
 end VerifModel.C05
